@@ -2,16 +2,20 @@
    run_case  : the Impl model evaluated on a case of a component;
    oracle    : the Spec-layer judgement of a property on the IMPLEMENTATION's observations. *)
 From Coq Require Import NArith List.
-From ACPI Require Import Lib.Bytes Lib.Sx Impl.Checksum Spec.ChecksumS.
+From ACPI Require Import Lib.Bytes Lib.Sx Impl.Checksum Spec.ChecksumS Impl.AmlCore Spec.AmlCoreS.
 Import ListNotations.
 Open Scope N_scope.
 
-(* component ids *)
-Definition C_CKSUM := 1.
-
+(* component ids: 1 checksum accumulator; 2 create_pkg_length (hook); 3 integer constants; 4 Path::new + encode;
+   5 EISAName; 6 Uuid *)
 Definition run_case (md : mode) (comp : N) (c : sx) : list ev :=
   match comp with
   | 1 => ck_case c
+  | 2 => pkglen_case md c
+  | 3 => int_case c
+  | 4 => path_case c
+  | 5 => eisa_case c
+  | 6 => uuid_case md c
   | _ => [EvPanic]
   end.
 
@@ -19,6 +23,13 @@ Definition run_case (md : mode) (comp : N) (c : sx) : list ev :=
 Definition oracle (prop comp : N) (c : sx) (impl : list ev) : bool :=
   match prop, comp with
   | 17, 1 => ck_oracle c impl
+  | 7, 2 => pkglen_oracle c impl
+  | 18, 2 => pkglen_oracle18 c impl
+  | 8, 3 => int_oracle c impl
+  | 9, 4 => path_oracle c impl
+  | 18, 4 => path_oracle c impl
+  | 16, 5 => eisa_oracle c impl
+  | 16, 6 => uuid_oracle c impl
   | _, _ => true
   end.
 
